@@ -7,8 +7,9 @@ CONSTANTS
   Batch = 2
   Confirmations = 1
   CountMerges = TRUE
-  MaxFaults = 2
+  MaxFaults = 3
   MaxCnt = 4
+  HCAhead = FALSE
   Concurrent = TRUE
   MaxLag = 0
 CONSTRAINT StateConstraint
